@@ -1,6 +1,7 @@
 import Tftp.Lemmas.SenderStep
 import Tftp.Model.Reassemble
 import Tftp.Props.C11
+import Tftp.Lemmas.Net
 /-!
 # C01 — Download fidelity
 
@@ -128,5 +129,18 @@ theorem c01_reassembly_small (c : SCfg) (hb : 0 < c.b) (hw : c.w < 65536) (f : B
 /-! non-vacuity: a concrete run -/
 example : (sRun { b := 2, w := 2, timeout := 5000, rep := 1 } [1, 2, 3] false [(.ack 1, 0), (.ack 2, 0)]).1 =
     [[.data 1 [1, 2], .data 2 [3]], [.data 2 [3]], []] := by decide
+
+end Tftp
+
+namespace Tftp
+
+/-- **never a corrupted copy, in the closed loop**: the download's receiver (the bundled client's
+`receive_file`, or any receiver that behaves like the model) fed by this sender through a network that
+loses and duplicates datagrams at will ends with a byte-identical copy or with no completed copy -/
+theorem c01_closed_loop_no_corruption (sc : SCfg) (rc : RCfg) (hb : 0 < sc.b) (hw1 : 1 ≤ sc.w) (hw : sc.w < 65536)
+    (hrb : rc.b = sc.b) (hrw : rc.w = sc.w) (fl : Faults) (f : Bytes) (hN : nblocks sc.b f ≤ 65535) (fuel : Nat) :
+    (netRun sc rc fl fuel (netInit sc rc fl f)).r.status = .ok →
+      (netRun sc rc fl fuel (netInit sc rc fl f)).r.win.file.content = f :=
+  (closed_loop_safety sc rc hb hw1 hw hrb hrw fl f hN fuel).2
 
 end Tftp
